@@ -37,6 +37,20 @@ Section Expanders.
     | _ => None
     end.
 
+  (* CSS 2.1 8.3 (margin; the same for padding, border-width/style/color, bleed): one value applies to all
+     sides; with two, top and bottom take the first, right and left the second; with three, top the first,
+     right and left the second, bottom the third; with four: top, right, bottom, left.
+     Css Backgrounds 3 5.1 reads the same way for the corners top-left, top-right, bottom-right, bottom-left. *)
+  Definition four_spec {A} (values : list A) : option (A * A * A * A) :=
+    match nth_error values 0 with
+    | None => None
+    | Some first =>
+        let second := match nth_error values 1 with Some x => x | None => first end in
+        let third := match nth_error values 2 with Some x => x | None => first end in
+        let fourth := match nth_error values 3 with Some x => x | None => second end in
+        if Nat.ltb 4 (List.length values) then None else Some (first, second, third, fourth)
+    end.
+
   (* the generator is consumed by list(): the first failing validation fails the whole shorthand *)
   Fixpoint validate_each (l : list (string * list tok)) : res outs :=
     match l with
